@@ -211,6 +211,14 @@ pub fn parse_src(t: &str) -> Option<Vec<Event>> {
 // canonical output
 // ---------------------------------------------------------------------------------------------
 
+/// Formats a value the library handed out (`Display` and `Debug`), discarding the text: the wording is no property's
+/// business, but formatting is library code too and must not panic (C06) — a panic here unwinds into the enclosing
+/// `guard` and shows up as `panic`.
+fn probe<E: std::fmt::Display + std::fmt::Debug>(e: &E) {
+    let _ = e.to_string();
+    let _ = format!("{:?}", e);
+}
+
 fn show_x(b: &[u8]) -> String {
     format!("x{}", hex_enc(b))
 }
@@ -242,6 +250,12 @@ pub fn show_ival(i: &Interval) -> String {
 }
 
 pub fn show_pair(p: &ContiguousIntervalPair) -> String {
+    // the consuming accessors must agree with the borrowing ones (C15: one pair, one reference side, one query side)
+    probe(p);
+    let (r, q) = p.clone().into_parts();
+    if &r != p.reference() || &q != p.query() || &p.clone().into_reference() != p.reference() || &p.clone().into_query() != p.query() {
+        return format!("NOTEQUAL-pair {:?}", p);
+    }
     format!("{}>{}", show_ival(p.reference()), show_ival(p.query()))
 }
 
@@ -287,6 +301,7 @@ fn show_header(h: &HeaderRecord) -> String {
 }
 
 fn show_perr(e: &interval_pair::Error) -> String {
+    probe(e);
     use omics::coordinate::interval::{ClampError, Error as IErr};
     match e {
         interval_pair::Error::EntityCountsDontMatch(_, _) => "counts".into(),
@@ -297,11 +312,27 @@ fn show_perr(e: &interval_pair::Error) -> String {
 }
 
 // Error kinds no property speaks about are not part of the compared observable.
-fn show_seqerr(_e: &header::sequence::Error) -> String {
+fn show_seqerr(e: &header::sequence::Error) -> String {
+    probe(e);
     "seq".into()
 }
 
 fn show_line(l: &Line) -> String {
+    // the variant accessors must agree with the variant (C13/C14: a line is exactly one of the three kinds)
+    let consistent = match l {
+        Line::Empty => l.as_header().is_none() && l.as_alignment_data().is_none(),
+        Line::Header(h) => {
+            l.as_header() == Some(h) && l.as_alignment_data().is_none() && l.clone().into_header().as_ref() == Some(h)
+                && l.clone().into_alignment_data_record().is_none()
+        }
+        Line::AlignmentData(d) => {
+            l.as_alignment_data() == Some(d) && l.as_header().is_none() && l.clone().into_alignment_data_record().as_ref() == Some(d)
+                && l.clone().into_header().is_none()
+        }
+    };
+    if !consistent {
+        return format!("NOTEQUAL-line {:?}", l);
+    }
     match l {
         Line::Empty => "empty".into(),
         Line::Header(h) => format!("hdr:{}:{}", show_header(h), show_x(l.to_string().as_bytes())),
@@ -310,6 +341,7 @@ fn show_line(l: &Line) -> String {
 }
 
 fn show_lineerr(e: &line::Error) -> String {
+    probe(e);
     match e {
         line::Error::InvalidHeaderRecord { .. } => "err:hdr".into(),
         line::Error::InvalidAlignmentDataRecord { .. } => "err:dat".into(),
@@ -317,6 +349,7 @@ fn show_lineerr(e: &line::Error) -> String {
 }
 
 fn show_ioerr(e: &io::Error) -> &'static str {
+    probe(e);
     if e.kind() == io::ErrorKind::InvalidData {
         "utf8"
     } else {
@@ -326,6 +359,7 @@ fn show_ioerr(e: &io::Error) -> &'static str {
 
 fn show_secerr(e: &sections::Error) -> String {
     use sections::{Error as E, ParseError as P};
+    probe(e);
     match e {
         E::Parse(P::AbruptEndInSection) => "abrupt".into(),
         E::Parse(P::BlankLineInSection(n)) => format!("blank:{}", n),
@@ -342,12 +376,14 @@ fn show_secerr(e: &sections::Error) -> String {
     }
 }
 
-fn show_sterr(_e: &stepthrough::Error) -> String {
+fn show_sterr(e: &stepthrough::Error) -> String {
+    probe(e);
     "step".into()
 }
 
 fn show_builderr(e: &machine::builder::Error) -> String {
     use machine::builder::Error as E;
+    probe(e);
     match e {
         E::InvalidSections(e) => format!("sections:{}", show_secerr(e)),
         #[allow(unreachable_patterns)]
@@ -356,6 +392,9 @@ fn show_builderr(e: &machine::builder::Error) -> String {
 }
 
 fn show_section(s: &Section) -> String {
+    if s.reference_sequence() != s.header().reference_sequence() || s.query_sequence() != s.header().query_sequence() {
+        return format!("NOTEQUAL-section {:?}", s);
+    }
     format!(
         "S({};{})",
         show_header(s.header()),
@@ -642,6 +681,7 @@ fn cmd_step(hdr: &str, recs: &str) -> String {
             Err(e) => return format!("newerr:{}", show_sterr(&e)),
             Ok(it) => it,
         };
+        let _ = format!("{:?}", with);
         let mut out = vec![];
         let mut ended = false;
         let mut it = with;
@@ -725,7 +765,11 @@ fn cmd_dump(a: &str) -> String {
         Some(e) => e,
         None => return "badcase".into(),
     };
-    match build_machine(ev) {
+    let built = catch_unwind(AssertUnwindSafe(|| {
+        machine::Builder::default().try_build_from(Reader::new(Script::new(ev))).map_err(|e| show_builderr(&e))
+    }))
+    .map_err(|_| ());
+    match built {
         Err(()) => "panic".into(),
         Ok(Err(e)) => format!("err {}", e),
         Ok(Ok(m)) => {
@@ -790,8 +834,13 @@ fn cmd_ops(a: &str, ops: &str) -> String {
                     let s = match &r {
                         Ok(None) => "eof".to_string(),
                         Ok(Some(l)) => show_line(l),
-                        Err(reader::Error::Io(e)) => format!("err:{}", show_ioerr(e)),
-                        Err(reader::Error::Line(e)) => show_lineerr(e),
+                        Err(e) => {
+                            probe(e);
+                            match e {
+                                reader::Error::Io(e) => format!("err:{}", show_ioerr(e)),
+                                reader::Error::Line(e) => show_lineerr(e),
+                            }
+                        }
                     };
                     out.push(format!("{}@{}", s, pos.get()));
                     k += 1;
@@ -823,6 +872,10 @@ fn cmd_ops(a: &str, ops: &str) -> String {
                     k += run;
                 }
             }
+        }
+        // the reader hands its source back where the cursor stands (C17: one cursor, nothing buffered aside)
+        if reader.inner().consumed.get() != pos.get() || reader.into_inner().consumed.get() != pos.get() {
+            out.push("NOTEQUAL-inner".into());
         }
         out.join(" ")
     })
